@@ -193,6 +193,7 @@ impl Api {
             ["gc"] => { self.ctx.impl_.collect_cycles(); ok() }
             ["obs"] => self.obs(),
             ["memcheck"] => self.memcheck(),
+            ["wfcheck"] => self.wfcheck(),
             ["nodes"] => format!("nodes={}", self.ctx.impl_.node_count()),
             ["leakcheck"] => {
                 for (_, h) in self.h.iter() { if let H::L(l) = h { l.unlisten(); } }
@@ -249,6 +250,66 @@ impl Api {
             if rc < i + h { return format!("mem=BAD node {id} ({}) count {rc} < reported in-edges {i} + held handles {h}", n.v_name()); }
         }
         "mem=ok".into()
+    }
+
+    /// The hypotheses of the scheduler theorem (`Sched.WF`) checked on the real node graph reachable
+    /// from the held handles and the rooted listeners: the dependency relation is acyclic, and every
+    /// node is registered as a dependent of each of its dependencies.
+    fn wfcheck(&self) -> String {
+        use sodium_rust::verif::{IsNode, Node};
+        use std::collections::HashMap as Map;
+        let mut start: Vec<Node> = vec![];
+        for (_, h) in self.h.iter() {
+            match h {
+                H::S(s) => start.push(s.impl_.node().clone()),
+                H::SS(s) => start.push(s.stream().impl_.node().clone()),
+                H::C(c) => { start.push(c.impl_.node().clone()); start.push(c.updates().impl_.node().clone()); }
+                H::CS(c) => { start.push(c.cell().impl_.node().clone()); start.push(c.cell().updates().impl_.node().clone()); }
+                H::SL(l) => start.push(l.stream().impl_.node().clone()),
+                H::CL(l) => { start.push(l.cell().impl_.node().clone()); start.push(l.cell().updates().impl_.node().clone()); }
+                H::L(l) => { if let Some(n) = l.impl_.node_op() { start.push(n); } }
+                _ => {}
+            }
+        }
+        self.ctx.impl_.with_data(|d: &mut SodiumCtxData| { for l in &d.keep_alive { if let Some(n) = l.node_op() { start.push(n); } } });
+        // collect reachable nodes (up through dependencies, down through live dependents)
+        let key = |n: &Node| std::sync::Arc::as_ptr(&n.data) as usize;
+        let mut nodes: Map<usize, Node> = Map::new();
+        let mut stack = start;
+        while let Some(n) = stack.pop() {
+            let k = key(&n);
+            if nodes.contains_key(&k) { continue; }
+            for d in n.data.dependencies.read().iter() { stack.push(d.node().clone()); }
+            for d in n.data.dependents.read().iter() { if let Some(u) = d.upgrade() { stack.push(u.node().clone()); } }
+            nodes.insert(k, n);
+        }
+        // adjacency: n in dependents(d) for every dependency d of n
+        for (k, n) in nodes.iter() {
+            for d in n.data.dependencies.read().iter() {
+                let found = d.data().dependents.read().iter().any(|w| w.data().upgrade().map(|x| std::sync::Arc::as_ptr(&x) as usize == *k).unwrap_or(false));
+                // a routed stream depends on its router without being registered there: the router queues it itself
+                if !found && d.gc_node().v_name().to_string() != "Router" {
+                    return format!("wf=BAD node {} ({}) is not registered as a dependent of its dependency {} ({})", n.gc_node.v_id(), n.gc_node.v_name(), d.gc_node().v_id(), d.gc_node().v_name());
+                }
+            }
+        }
+        // acyclicity: DFS with colours over the dependency relation
+        let mut colour: Map<usize, u8> = Map::new();
+        fn visit(k: usize, nodes: &Map<usize, Node>, colour: &mut Map<usize, u8>) -> Option<u32> {
+            match colour.get(&k) { Some(1) => return Some(nodes[&k].gc_node.v_id()), Some(2) => return None, _ => {} }
+            colour.insert(k, 1);
+            let deps: Vec<usize> = nodes[&k].data.dependencies.read().iter().map(|d| std::sync::Arc::as_ptr(d.data()) as usize).collect();
+            for d in deps { if nodes.contains_key(&d) { if let Some(x) = visit(d, nodes, colour) { return Some(x); } } }
+            colour.insert(k, 2);
+            None
+        }
+        let keys: Vec<usize> = nodes.keys().cloned().collect();
+        for k in keys {
+            if let Some(x) = visit(k, &nodes, &mut colour) {
+                return format!("wf=BAD the node dependency graph has a cycle through node {x} ({})", nodes.values().find(|n| n.gc_node.v_id() == x).map(|n| n.gc_node.v_name().to_string()).unwrap_or_default());
+            }
+        }
+        "wf=ok".into()
     }
 
     fn obs(&self) -> String {
